@@ -77,8 +77,8 @@ def echo_bodies(proto, tok):
     return body, 'OK'
 
 
-def canon_impl_line(case, out):
-    """harness output -> canonical ' | '-joined items"""
+def impl_items(case, out):
+    """harness output -> list of (canonical item, cookies dict or None)"""
     proto = case.split()[0]
     toks = out.split()
     items = []
@@ -86,20 +86,26 @@ def canon_impl_line(case, out):
         if t.startswith('calls=') or t.startswith('log='):
             continue
         if t in ('CONNECT-FAILED', 'BAD-STEP'):
-            items.append(t)
+            items.append((t, None))
             continue
         body, tag = echo_bodies(proto, t)
         if body is None:
-            items.append(tag)
+            items.append((tag, None))
             continue
         d = parse_echo(body)
-        items.append('OK ' + canon_item(d.get('M', b''), d.get('S', b''), d.get('P', b''), d.get('Q', b''), d.get('CT', b''),
-                                        d.get('CL', '?'), d['E'], d['G'], d['O'], d.get('B', b'')))
-    return ' | '.join(items)
+        items.append(('OK ' + canon_item(d.get('M', b''), d.get('S', b''), d.get('P', b''), d.get('Q', b''), d.get('CT', b''),
+                                         d.get('CL', '?'), d['E'], d['G'], d['O'], d.get('B', b'')), d['C']))
+    return items
+
+
+def canon_impl_line(case, out):
+    """harness output -> canonical ' | '-joined items"""
+    return ' | '.join(i for i, _ in impl_items(case, out))
 
 
 # what the client sees for the model's non-request outcomes: protocol violation = connection dropped without a reply
-MODEL_TAGS = {'ERR': 'NOREPLY', 'BAD400': 'STATUS400', 'NEG400': 'STATUS400', 'BIG413': 'STATUS413'}
+# (incomplete streams are always sent with a final shutdown of the sending side: the server sees EOF and drops the connection)
+MODEL_TAGS = {'ERR': 'NOREPLY', 'BAD400': 'STATUS400', 'NEG400': 'STATUS400', 'BIG413': 'STATUS413', 'NEEDMORE': 'NOREPLY', 'NEEDBODY': 'NOREPLY'}
 MOUNTED = (b'/sync', b'/async')
 
 
@@ -197,9 +203,11 @@ def rnd_req(rng, big=False):
         qitems, q = rnd_form(rng)
     names = rng.sample(HDR_NAMES, rng.randint(0, 6))
     headers = [(n, rnd_value(rng)) for n in names]
+    cookies = {}
     if rng.random() < 0.4:
-        ck = [(rnd_token(rng, 1, 4), rnd_token(rng, 0, 6)) for _ in range(rng.randint(1, 3))]
-        headers.append((b'Cookie', b'; '.join(k + b'=' + v for k, v in ck)))
+        for _ in range(rng.randint(1, 3)):
+            cookies.setdefault(rnd_token(rng, 1, 4), rng.choice([rnd_token(rng, 0, 6), b'"q ' + rnd_token(rng, 0, 3) + b';,"']))
+        headers.append((b'Cookie', rng.choice([b'; ', b';', b', ']).join(k + b'=' + v for k, v in cookies.items())))
     body = b''
     ct = None
     if method in (b'POST', b'PUT', b'PATCH'):
@@ -212,7 +220,9 @@ def rnd_req(rng, big=False):
             n = rng.choice([0, 1, 2, 7, 100, 1000]) if not big else rng.choice([16383, 16384, 16385, 65535, 65536, 70000, 131071])
             body = bytes(rng.getrandbits(8) for _ in range(n))
             ct = rng.choice([b'application/octet-stream', b'text/plain', None])
-    return Req(method, script, path, q, headers, body, rng.random() < 0.7, ct, False)
+    r = Req(method, script, path, q, headers, body, rng.random() < 0.7, ct, False)
+    r.cookies = cookies
+    return r
 
 
 def expect_of(r):
@@ -230,8 +240,10 @@ def expect_of(r):
         return out
     post = pairs(r.body) if (r.content_type or b'').lower().startswith(b'application/x-www-form-urlencoded') else []
     cl = str(len(r.body)) if (r.body or r.method == b'POST') else '0'
+    # cookies (oracle only, not in the Coq model): a quoted value is delivered without its quotes
+    ck = sorted((k, v[1:-1] if v.startswith(b'"') else v) for k, v in getattr(r, 'cookies', {}).items())
     return canon_item(r.method, r.script, urldecode(r.path), qs, r.content_type or b'', cl,
-                      {k: v for k, v in env.items()}, pairs(qs), post, r.body)
+                      {k: v for k, v in env.items()}, pairs(qs), post, r.body) + ';K=' + (','.join(hx(k) + ':' + hx(v) for k, v in ck) or '-')
 
 
 def segment(rng, data, mode):
@@ -280,7 +292,7 @@ def gen_cases(ctx):
     rng = ctx.rng
     cases = []
     # 1. every single split point of short requests, all three protocols
-    for _ in range(ctx.scale(6, 60)):
+    for _ in range(ctx.scale(6, 30)):
         r = rnd_req(rng)
         r.headers = r.headers[:2]
         for proto in ('http', 'scgi', 'fcgi'):
@@ -291,7 +303,7 @@ def gen_cases(ctx):
             for i in range(1, len(data)):
                 cases.append(case_line(proto, [[data[:i], data[i:]]], exp, [rd]))
     # 2. random / special / byte-wise segmentations of random requests, and pairs of split points
-    for _ in range(ctx.scale(260, 4000)):
+    for _ in range(ctx.scale(260, 2000)):
         r = rnd_req(rng, big=rng.random() < 0.04)
         for proto in ('http', 'scgi', 'fcgi'):
             data, rd = encode(rng, r, proto, False)
@@ -300,7 +312,7 @@ def gen_cases(ctx):
             for m in modes:
                 cases.append(case_line(proto, [segment(rng, data, m)], exp, [rd]))
     # 3. keep-alive sequences (http keep-alive, fastcgi keep_conn), incl. pipelined requests in one segment
-    for _ in range(ctx.scale(120, 1500)):
+    for _ in range(ctx.scale(120, 800)):
         k = rng.randint(2, 4)
         reqs = [rnd_req(rng) for _ in range(k)]
         for proto in ('http', 'fcgi'):
@@ -315,7 +327,7 @@ def gen_cases(ctx):
                 steps = ['S:' + hx(s) for s in sg] + [rd for _, rd in encs]
                 cases.append(proto + ' ' + ' '.join(steps) + ' X:' + hx(json.dumps(exp).encode()))
     # 4. requests with a long header value after a short one on a kept-alive connection (string pool pages)
-    for _ in range(ctx.scale(30, 300)):
+    for _ in range(ctx.scale(30, 150)):
         r1 = rnd_req(rng)
         r1.headers = [(b'X-Long', bytes(rng.choice(TOK) for _ in range(rng.choice([1024, 1025, 1500, 2047, 2048, 3000]))))]
         r2 = rnd_req(rng)
@@ -338,6 +350,14 @@ def pad_to(build, target, lo=0, hi=40000):
         if n > target:
             return None
     return None
+
+
+def cap_split(segs):
+    """the HTTP header reader takes at most 16384 bytes per read: keep every segment within one read"""
+    out = []
+    for x in segs:
+        out += [x[i:i + 16384] for i in range(0, len(x), 16384)] or [x]
+    return out
 
 
 def gen_boundary(ctx):
@@ -397,7 +417,7 @@ def gen_boundary(ctx):
             r.headers = [(b'X-Pad', b'p' * 16500)] + r.headers[:1]
             data = enc_http(r)
             a = rng.randint(1, 16000)
-            segs = [data[:a], data[a:total2], data[total2:]]
+            segs = cap_split([data[:a], data[a:total2], data[total2:]])
             cases.append('http ' + ' '.join('S:' + hx(x) for x in segs) + ' R')
         # --- HTTP: header block of exactly 16384 / 16385 / 20000 bytes delivered in reads that never stop inside it above the cap
         for hb in (16384, 16385, 20000):
@@ -415,7 +435,7 @@ def gen_boundary(ctx):
             hdr(k)
             data = enc_http(r)
             a = rng.randint(1, 16000)
-            cases.append('http S:' + hx(data[:a]) + ' S:' + hx(data[a:]) + ' R' + (' X:' + hx(json.dumps([expect_of(r)]).encode()) if hb <= 16384 else ''))
+            cases.append('http ' + ' '.join('S:' + hx(x) for x in cap_split([data[:a], data[a:]])) + ' R' + (' X:' + hx(json.dumps([expect_of(r)]).encode()) if hb <= 16384 else ''))
     return cases
 
 
@@ -432,6 +452,10 @@ def gen_malformed(ctx):
     for d in H:
         for m in ('whole', 'bytes', 'random'):
             cases.append('http ' + ' '.join('S:' + hx(x) for x in segment(rng, d, m)) + ' R')
+    # incomplete streams, ended by a shutdown of the sending side
+    for d in (b'GET /sync/a HTTP/1.1\r\nHost: x\r\n', b'GET /sync/a HTTP/1.1\r\nHost: x\r\n\r', b'POST /sync/a HTTP/1.1\r\nContent-Length: 5\r\n\r\nabc', b'GET /sy'):
+        for m in ('whole', 'random'):
+            cases.append('http ' + ' '.join('S:' + hx(x) for x in segment(rng, d, m)) + ' H R')
     blob = b'CONTENT_LENGTH\x000\x00SCGI\x001\x00REQUEST_METHOD\x00GET\x00SCRIPT_NAME\x00/sync\x00PATH_INFO\x00/a\x00'
     S = [b'%d:' % len(blob) + blob + b';', b'%d;' % len(blob) + blob + b',', b'00000000000000070:' + blob + b',', b'-1:' + blob + b',',
          b'16385:' + blob + b',', b'1:,' + blob, b'%d:' % (len(blob) - 1) + blob + b',', b' %d:' % len(blob) + blob + b',',
@@ -454,6 +478,44 @@ def gen_malformed(ctx):
     return cases
 
 
+# ---------------------------------------------------------------------------- string_pool (private/string_map.h)
+def gen_pool(ctx):
+    rng = ctx.rng
+    sizes = [0, 1, 2, 9, 10, 100, 511, 1000, 1023, 1024, 1025, 1500, 2046, 2047, 2048, 2049, 3000, 5000]
+    cases = ['pool c s9 a10 s1500 c ' + ' '.join(['a100'] * 24),        # the witness of the repaired clear() defect
+             'pool a1024 a1024 a1 a1025 c a2048 a1', 'pool ' + ' '.join(['s1023'] * 5) + ' c ' + ' '.join(['s1023'] * 5)]
+    for _ in range(ctx.scale(300, 3000)):
+        ops = []
+        for _ in range(rng.randint(1, 40)):
+            k = rng.random()
+            if k < 0.12:
+                ops.append('c')
+            else:
+                n = rng.choice(sizes) if rng.random() < 0.6 else rng.randint(0, 2200)
+                ops.append(('a' if rng.random() < 0.5 else 's') + str(n))
+        cases.append('pool ' + ' '.join(ops))
+    return cases
+
+
+def pool_canon(out):
+    return ' '.join(':'.join(t.split(':')[:3]) for t in out.split())
+
+
+def pool_oracle(case, out):
+    """every allocation lies inside the malloc block of the page it was carved from (and ASan saw no overrun)"""
+    if out.startswith('<crash'):
+        return ('pool-overrun', 'string_pool harness died (ASan): ' + out[:300])
+    for t in out.split():
+        if t == '-':
+            continue
+        f = t.split(':')
+        if len(f) != 4:
+            return ('pool-outside', 'allocation outside every page: ' + t)
+        if int(f[1]) + int(f[2]) > int(f[3]):
+            return ('pool-overrun', 'allocation %s exceeds its page' % t)
+    return None
+
+
 def oracle(case, out):
     if out.startswith('<crash'):
         return ('frontend-crash', 'harness/service died: ' + out)
@@ -463,7 +525,8 @@ def oracle(case, out):
     if not x:
         return None
     exp = json.loads(unhx(x[0][2:]).decode())
-    got = canon_impl_line(case, out).split(' | ')
+    items = impl_items(case, out)
+    got = [i for i, _ in items]
     if len(got) != len(exp):
         return ('request-count', 'connection delivered %d answers for %d requests: %s' % (len(got), len(exp), ' | '.join(g[:60] for g in got)))
     for i, (g, e) in enumerate(zip(got, exp)):
@@ -471,6 +534,11 @@ def oracle(case, out):
             if g != e[1:]:
                 return ('request-not-faithful-' + proto, 'request %d: expected %s, the client observed %s' % (i + 1, e[1:], g[:60]))
             continue
+        e, _, ek = e.partition(';K=')
+        if g == 'OK ' + e and ek:
+            gk = ','.join(hx(k) + ':' + hx(v) for k, v in sorted(items[i][1].items())) or '-'
+            if gk != ek:
+                return ('cookies-not-faithful-' + proto, 'request %d: cookies observed %s, sent %s' % (i + 1, gk, ek))
         if g != 'OK ' + e:
             gf = dict(p.split('=', 1) for p in g[3:].split(';')) if g.startswith('OK ') else {}
             ef = dict(p.split('=', 1) for p in e.split(';'))
@@ -504,7 +572,8 @@ def run(ctx):
         'tools/cxx2v.py + clang 14 JSON AST (separator, xdigit from private/http_protocol.h)',
         'extraction: ExtrOcamlBasic only, OCaml 4.13.1',
         'harness/fe_service.cpp (in-process cppcms::service, accept() interposition, echo applications), checks/fe_common.py encoders',
-        'hand model coq/C01/Defs.v of http_parser.h / http_api.cpp / scgi_api.cpp / fastcgi_api.cpp reading paths']
+        'hand model coq/C01/Defs.v, Chunked.v, Conn.v, Pool.v of http_parser.h / http_api.cpp / scgi_api.cpp / fastcgi_api.cpp reading paths and string_map.h string_pool',
+        'harness/C01_pool.cpp (string_pool internals read through #define private public; AddressSanitizer)']
     ctx.assumptions = ['kernel delivers socket bytes in order', 'header names are unique within a request (well-formed domain)',
                        'the server thread reads a segment before the next one is sent (observed through FIONREAD on the accepted fd); '
                        'if it does not, segments coalesce, which by the segmentation theorem cannot change the result']
@@ -521,8 +590,20 @@ def run(ctx):
                             'FastCGI record layouts (PARAMS/STDIN cuts, paddings 0..255, request ids); keep-alive and pipelined sequences; long header '
                             'values across kept-alive requests. Non-trivial = the request bytes are sent in at least two segments; distinct = distinct case lines.')
     os.makedirs(ctx.workdir, exist_ok=True)
+    pool_cases = [c for c in cases if c.startswith('pool ')]
+    cases = [c for c in cases if not c.startswith('pool ')]
+    if ctx.replay_cases is None:
+        pool_cases += gen_pool(ctx)
     vlib.differential(ctx, cases, exe, mexe, oracle, nontrivial, classify,
                       impl_env={'FE_WORKDIR': ctx.workdir},
                       canon_case=canon_impl_line, canon_model=canon_model_line, jobs=12)
+    # the arena of the environment strings: header-only class, own small harness built with ASan
+    pexe, err = vlib.build_harness('C01_pool', ['C01_pool.cpp'], link=False, extra=['-fsanitize=address'])
+    if not pexe:
+        ctx.broke('string_pool harness build failed', err)
+        return
+    if pool_cases:
+        vlib.differential(ctx, pool_cases, pexe, mexe, pool_oracle, lambda c, o: 'c ' in c, lambda c, o: 'pool:' + ('clear' if ' c' in c else 'noclear'),
+                          what='correspondence string_pool model vs implementation', canon=pool_canon, jobs=4)
 
 
